@@ -1,7 +1,8 @@
 (** C13 — local recipients are accepted exactly when the vpopmail mailbox exists, and no local part
     reaches outside the domain directory.  Only statements here; proofs live in Proofs/VpopProofs.v.
     The model is the code with fixes/C13-dotdot.diff, C13-dashscan.diff and C13-nametoolong.diff applied. *)
-From Qv Require Import Common.Bytes Gen.GenVpop Model.Vpop Spec.VpopSpec Proofs.VpopProofs.
+From Qv Require Import Common.Bytes Gen.GenVpop Gen.GenCdb Model.Vpop Model.Cdb Model.VpopFile Spec.VpopSpec Spec.CdbSpec
+  Model.VpopDs Proofs.VpopProofs Proofs.CdbSafe Proofs.CdbLookup Proofs.CdbMake Proofs.CdbVget Proofs.VpopDsProofs.
 Local Open Scope Z_scope.
 
 (** For every users/cdb with a record for the domain whose path is a directory, every domain directory
@@ -104,6 +105,131 @@ Theorem C13_model_passes_rcpt_checker : forall db lay vbfile domain local,
     (conf_of (snd ro)) (probes (snd ro)) = true.
 Proof. exact model_passes_rcpt_checker. Qed.
 Print Assumptions C13_model_passes_rcpt_checker.
+
+(** ** users/cdb as a file (lib/cdb.c with fixes/C13-cdb-bounds.diff, vget_dir's record parser) *)
+
+(** Memory safety of cdb_seekmm() for EVERY file content and EVERY key (truncated files, table and record
+    pointers outside the file, slot counts up to 2^32-1, tables without empty slot, zero-length keys, keys
+    containing NUL): the model never reads at an offset >= the size of the mapping ([Crash]); the result is
+    NULL with errno 0 (not found) or EINVAL (no valid database), or a pointer that lies inside the mapping
+    behind a record header and the key, with the whole value (the record's data length) inside the mapping. *)
+Theorem C13_cdb_safe : forall f key,
+  exists r, cdb_seekmm f key = Ok r /\ seek_post f (N.of_nat (length f)) (N.of_nat (length key)) r.
+Proof. exact cdb_seekmm_safe. Qed.
+Print Assumptions C13_cdb_safe.
+
+(** Termination with a bound: the slot walk runs at most (size of the file) / 8 times. *)
+Theorem C13_cdb_terminates : forall f key, cdb_seekmm_bounded (length f / 8)%nat f key = cdb_seekmm f key.
+Proof. exact cdb_seekmm_terminates. Qed.
+Print Assumptions C13_cdb_terminates.
+
+(** vget_dir() (key construction, cdb_seekmm, the four NUL-terminated fields of the record, stripping of
+    trailing slashes) is memory safe for every file content and every domain. *)
+Theorem C13_vget_safe : forall file domain, exists v, vget_dir_real file domain = Ok v.
+Proof. intros. apply vget_dir_file_safe. Qed.
+Print Assumptions C13_vget_safe.
+
+(** Lookup in a well-formed constant database ([cdb_wf f recs], Spec/CdbSpec.v) with a 7 bit key without NUL
+    (what vget_dir builds; no lower-casing happens here, addrparse() lower-cased the address before):
+    the value of the FIRST record with exactly that key is returned, completely inside the file, and
+    NULL/errno 0 exactly when no record has the key. *)
+Theorem C13_cdb_lookup : forall f recs k, cdb_wf f recs -> ascii_key k ->
+  match lookup recs k with
+  | Some v => exists off, cdb_seekmm f k = Ok (SFound off) /\ has f off v /\ (N.of_nat (length k) + 8 <= off)%N
+  | None => cdb_seekmm f k = Ok (SNone 0%N)
+  end.
+Proof. exact cdb_lookup_correct. Qed.
+Print Assumptions C13_cdb_lookup.
+
+(** The Gallina cdbmake writes well-formed databases (for record lists that fit 4 GiB). *)
+Theorem C13_cdb_make_wf : forall recs,
+  (N.of_nat (length (cdb_make recs)) < M32)%N ->
+  Forall (fun kv => Forall (fun b => (b < 256)%N) (fst kv) /\ Forall (fun b => (b < 256)%N) (snd kv)) recs ->
+  cdb_wf (cdb_make recs) recs.
+Proof. exact cdb_make_wf. Qed.
+Print Assumptions C13_cdb_make_wf.
+
+(** vget_dir() on a well-formed users/cdb: the record "!domain-" -> realdomain NUL uid NUL gid NUL path NUL ...
+    gives the path without its trailing slashes plus one '/'. *)
+Theorem C13_vget_found : forall f recs domain d u g path rest,
+  cdb_wf f recs -> ascii_key domain -> (length domain + 3 < VP_CDBKEY)%nat ->
+  lookup recs (domain_key domain) = Some (record_value d u g path rest) ->
+  nonul d -> nonul u -> nonul g -> nonul path ->
+  vget_dir_real (Some f) domain = Ok (VPath (rstrip path ++ [47%N])).
+Proof. exact vget_dir_real_found. Qed.
+Print Assumptions C13_vget_found.
+
+(** C13_exists with "domain found in users/cdb" as a statement about the file: users/cdb is a well-formed
+    constant database whose first record for "!domain-" names a path that is a directory. *)
+Theorem C13_exists_file : forall f recs pathfs fs vb domain local d u g path rest,
+  cdb_wf f recs -> ascii_key domain -> (length domain + 3 < VP_CDBKEY)%nat ->
+  lookup recs (domain_key domain) = Some (record_value d u g path rest) ->
+  nonul d -> nonul u -> nonul g -> nonul path ->
+  pathfs (rstrip path ++ [47%N]) = DomTree ->
+  exists o, user_exists_file (Some f) pathfs fs vb domain local = Ok o /\
+    (0 < rc o -> mailbox fs vb local /\ code_form fs vb local (rc o)) /\
+    (rc o = 0 -> ~ mailbox fs vb local) /\
+    (rc o < 0 -> io_error fs vb local).
+Proof. exact user_exists_file_sound. Qed.
+Print Assumptions C13_exists_file.
+
+(** Whatever users/cdb contains (or if it does not exist): user_exists() does not read outside the mapping,
+    and C13_confined holds. *)
+Theorem C13_confined_file : forall file pathfs fs vb domain local,
+  exists o, user_exists_file file pathfs fs vb domain local = Ok o /\
+    confined (probes o) /\
+    (forall n, userdir o = Some n -> n = local /\ component local /\ fs local = EDir).
+Proof. exact user_exists_file_safe. Qed.
+Print Assumptions C13_confined_file.
+
+(** RCPT TO:<local@[ip]> (address literal; fixes/C13-ipv6-literal.diff): accepted only when the bracketed text,
+    without an "IPv6:" tag in any case, is the local address of the connection AND the mailbox exists in the
+    domain liphost; every refusal is a "550 5.1.1" reply; an error only after a hard lookup failure. *)
+Theorem C13_reply_literal : forall localip liphost db fs vb local iptext,
+  let l := map to_lower local in
+  domain_found db liphost ->
+  match fst (addrparse_literal localip liphost db fs vb local iptext) with
+  | RAccept => literal_is_local localip (map to_lower iptext) = true /\ mailbox fs vb l
+  | RNoUser text => (literal_is_local localip (map to_lower iptext) = false \/ ~ mailbox fs vb l) /\ exists t, text = REPLY_550 ++ t
+  | RError e => 0 < e /\ io_error fs vb l
+  end.
+Proof. exact literal_reply_sound. Qed.
+Print Assumptions C13_reply_literal.
+
+(** ** an already filled struct userconf (the global cache used for MAIL FROM; fixes/C13-dirfd-leak.diff) *)
+
+(** Whatever the structure holds from earlier calls (a stored path ends with the '/' vget_dir() appends):
+    the answer of user_exists() is the one a fresh structure gives, so C13_exists / C13_confined carry over. *)
+Theorem C13_ds_outcome : forall s v pathfs fs vb local, ds_ok s -> path_ok v ->
+  fst (fst (user_exists_ds s v pathfs fs vb local)) = user_exists_with (vg_of pathfs v) fs vb local.
+Proof. exact user_exists_ds_outcome. Qed.
+Print Assumptions C13_ds_outcome.
+
+(** No descriptor is lost: what was opened during the call is closed again or still referenced by the structure
+    (at most the domain and the user directory), and the structure stays well-formed for the next call. *)
+Theorem C13_ds_no_leak : forall s v pathfs fs vb local,
+  let r := user_exists_ds s v pathfs fs vb local in
+  (opens (snd r) + held s = closes (snd r) + held (snd (fst r)))%nat /\ (held (snd (fst r)) <= 2)%nat.
+Proof. exact user_exists_ds_no_leak. Qed.
+Print Assumptions C13_ds_no_leak.
+
+Theorem C13_ds_ok : forall s v pathfs fs vb local, ds_ok s -> path_ok v ->
+  ds_ok (snd (fst (user_exists_ds s v pathfs fs vb local))).
+Proof. exact user_exists_ds_ok. Qed.
+Print Assumptions C13_ds_ok.
+
+(** a database made of two records: well-formed, both lookups answered, a third key absent *)
+Example C13_cdb_nonvacuous :
+  let v1 := record_value [120; 46; 121]%N [56; 57]%N [56; 57]%N [111; 47; 100; 47; 47]%N [45; 0]%N in
+  let recs := [(domain_key [120; 46; 121]%N, v1); (domain_key [97]%N, [0; 0; 0; 47; 0]%N)] in
+  cdb_wf (cdb_make recs) recs
+  /\ vget_dir_real (Some (cdb_make recs)) [120; 46; 121]%N = Ok (VPath [111; 47; 100; 47]%N)
+  /\ vget_dir_real (Some (cdb_make recs)) [122]%N = Ok VNone.
+Proof.
+  cbv zeta. split; [|split]; try (vm_compute; reflexivity).
+  apply cdb_make_wf; [vm_compute; reflexivity|].
+  repeat constructor; vm_compute; reflexivity.
+Qed.
 
 (** the hypotheses are met by a non-trivial state: a directory with .qmail-sales-default and a bounce
     catch-all; "sales-eu.north" is accepted with 4, "nobody" gets 0, ".." gets 0 without any lookup *)
